@@ -13,7 +13,10 @@
      _compute_box_statistics   -> [box_stat]: sigma clip, estimators, ngood counted AFTER
                                   clipping, exclusion against the FULL box size
      "All boxes contain <= ..." -> [AllExcluded]
-     _interpolate_grid         -> [idw] (library numerics: section variable)
+     _interpolate_grid         -> [interp_grid]: cells that are not NaN are kept, NaN cells
+                                  get the Shepard value [idw] (library numerics: section
+                                  variable) clipped to the range of the good cells (the
+                                  REPAIRED code, fixes/C11-2-*.patch)
      _filter_grid / _selective_filter -> [filter_grid] (window arithmetic modelled; the
                                   median function itself is a section variable, the
                                   concrete [qmedian] is used in the correspondence)
@@ -23,7 +26,8 @@
    The exclusion rule is the REPAIRED one (fixes/C11-1-*.patch):
      excluded  <->  ngood < (1 - p/100) * box_npixels  \/  ngood = 0
    (the unrepaired code used  ngood <= ...  which excludes boxes that have exactly the
-   allowed number of masked pixels and every box when exclude_percentile = 0). *)
+   allowed number of masked pixels and every box when exclude_percentile = 0;
+   [excluded_unrepaired] is kept only for the refutation theorem). *)
 From Coq Require Import List Arith ZArith QArith Bool Lia.
 From PV Require Import lib.Cases.
 Import ListNotations.
@@ -91,6 +95,9 @@ Definition good_thr : Q := ((1 - p / 100) * inject_Z (Z.of_nat box_npixels))%Q.
 Definition excluded (n : nat) : bool :=
   Qlt_bool (inject_Z (Z.of_nat n)) good_thr || (n =? 0).
 
+(* the rule of the unrepaired code: ngood <= threshold *)
+Definition excluded_unrepaired (n : nat) : bool := Qle_bool (inject_Z (Z.of_nat n)) good_thr.
+
 Definition box_vals (coords : list (nat * nat)) : list Z :=
   clip (goodvals (map (fun c => pix (fst c) (snd c)) coords)).
 Definition box_stat (coords : list (nat * nat)) : option Q * option Q * nat :=
@@ -117,6 +124,24 @@ Definition qmaxl (l : list Q) : Q := match l with [] => 0%Q | a :: r => fold_lef
 Definition somes {A} (l : list (option A)) : list A :=
   flat_map (fun o => match o with Some v => [v] | None => [] end) l.
 
+Definition width {A} (m : img A) : nat := length (hd [] m).
+Definition clipq (lo hi v : Q) : Q :=
+  if Qle_bool v lo then lo else if Qle_bool hi v then hi else v.
+
+(* _interpolate_grid: NaN cells are filled with the Shepard IDW value of the good cells,
+   clipped to [min, max] of the good cells; without NaN cell the grid is returned as is *)
+Section InterpGrid.
+Variable idw : img (option Q) -> nat -> nat -> Q.
+Definition interp_grid (g : img (option Q)) : img Q :=
+  let good := somes (concat g) in
+  let lo := qminl good in let hi := qmaxl good in
+  mk2 (length g) (width g) (fun i j =>
+    match get2 None g i j with
+    | Some v => v
+    | None => clipq lo hi (idw g i j)
+    end).
+End InterpGrid.
+
 Section Filter.
 Variable median : list Q -> Q.       (* np.median / nanmedian of a window *)
 Variables (fy fx : nat).             (* filter_size (odd) *)
@@ -131,10 +156,10 @@ Definition window (H W : nat) (m : img Q) (i j : nat) : list Q :=
   flat_map (fun y => map (fun x => get2 0%Q m y x) (seq x0 (x1 - x0))) (seq y0 (y1 - y0)).
 
 Definition full_filter (m : img Q) : img Q :=
-  let H := length m in let W := length (hd [] m) in
+  let H := length m in let W := width m in
   mk2 H W (fun i j => median (window H W m i j)).
 Definition selective_filter (t : Q) (bkg_interp m : img Q) : img Q :=
-  let H := length m in let W := length (hd [] m) in
+  let H := length m in let W := width m in
   mk2 H W (fun i j => if Qlt_bool t (get2 0%Q bkg_interp i j)
                       then median (window H W m i j) else get2 0%Q m i j).
 (* min_bkg = nanmin(_bkg_stats); bkg_interp = _interpolate_grid(_bkg_stats) *)
@@ -155,9 +180,6 @@ Variable fill : Q.
 Variable do_clip : bool.                      (* BkgZoomInterpolator(clip=True) *)
 Variable interp : img Q -> nat -> nat -> Q.   (* scipy zoom / Shepard IDW upscaling *)
 
-Definition clipq (lo hi v : Q) : Q :=
-  if Qle_bool v lo then lo else if Qle_bool hi v then hi else v.
-
 Definition calc_image (mesh : img Q) : img Q :=
   let fl := concat mesh in
   let lo := qminl fl in let hi := qmaxl fl in
@@ -176,7 +198,7 @@ Variables mask cov : img bool.
 Variable p : Q.
 Variables est rms : list Z -> Q.
 Variable clip : list Z -> list Z.
-Variable idw : img (option Q) -> img Q.       (* _interpolate_grid *)
+Variable idw : img (option Q) -> nat -> nat -> Q.   (* raw Shepard IDW value of a NaN cell *)
 Variable median : list Q -> Q.
 Variables (fy fx : nat) (fthr : option Q).
 Variables (fill : Q) (do_clip : bool).
@@ -192,7 +214,7 @@ Definition background2d : result :=
   let rs := rms_stats ny nx by_ bx data mask cov p est rms clip in
   if all_excluded ny nx by_ bx data mask cov p est rms clip then AllExcluded
   else
-    let b0 := idw bs in let r0 := idw rs in
+    let b0 := interp_grid idw bs in let r0 := interp_grid idw rs in
     let minb := qminl (somes (concat bs)) in
     let bF := filter_grid median fy fx fthr minb b0 b0 in
     let rF := filter_grid median fy fx fthr minb b0 r0 in
@@ -269,11 +291,18 @@ Definition has_shape {A} (h w : nat) (m : img A) : bool :=
 Definition est_of (estk : Z) : list Z -> Q := if (estk =? 0)%Z then qmean else qmedianZ.
 Definition noclip (l : list Z) : list Z := l.
 
+(* the implementation's values of the cells it did not exclude *)
+Definition goods (excl : img bool) (m : img Q) : list Q :=
+  flat_map (fun pr => if fst pr : bool then [] else [snd pr]) (combine (concat excl) (concat m)).
+(* [interp_grid] with [idw] instantiated by the implementation's own value v: clip leaves it *)
+Definition in_range (l : list Q) (v : Q) : bool := Qeq_bool (clipq (qminl l) (qmaxl l) v) v.
+
 Definition check_A (ny nx by_ bx : nat) data mask cov (p : Q) (estk prec : Z) (A : implA) : bool :=
   let '(npix, excl, b0, r0) := A in
   let H := nmy ny by_ in let W := nmx nx bx in
   let est := est_of estk in
   let sm := stat_mesh ny nx by_ bx data mask cov p est qvar noclip in
+  let gb := goods excl (map (map toQ) b0) in let gr := goods excl (map (map toQ) r0) in
   has_shape H W npix && has_shape H W excl && has_shape H W b0 && has_shape H W r0
   && forallb (fun i => forallb (fun j =>
        let vals := box_vals data mask cov noclip (cell_coords ny nx by_ bx i j) in
@@ -284,16 +313,14 @@ Definition check_A (ny nx by_ bx : nat) data mask cov (p : Q) (estk prec : Z) (A
           | Some qb, Some qr =>
               close prec (toQ (get2 (0, 1)%Z b0 i j)) qb
               && close_var prec vals (toQ (get2 (0, 1)%Z r0 i j)) qr
-          | _, _ => true
+          | _, _ => in_range gb (toQ (get2 (0, 1)%Z b0 i j)) && in_range gr (toQ (get2 (0, 1)%Z r0 i j))
           end) (seq 0 W)) (seq 0 H).
 
 Definition check_B (prec : Z) (fy fx : nat) (fthr : option Q) (A : implA) (B : implB) : bool :=
   let '(npix, excl, b0, r0) := A in
   let '(bF, rF) := B in
   let b0q := map (map toQ) b0 in let r0q := map (map toQ) r0 in
-  let goodb := flat_map (fun pr => if fst pr : bool then [] else [snd pr])
-                        (combine (concat excl) (concat b0q)) in
-  let minb := qminl goodb in
+  let minb := qminl (goods excl b0q) in
   img_forall2 (fun v q => close prec (toQ v) q) bF (filter_grid qmedian fy fx fthr minb b0q b0q)
   && img_forall2 (fun v q => close prec (toQ v) q) rF (filter_grid qmedian fy fx fthr minb b0q r0q).
 
